@@ -1,59 +1,1415 @@
+// C10 harness: JSON in and out of CUE, observed on the working tree.
+//
+// Case kinds (one line in cases.txt, one line in impl.txt; bytes hex-encoded):
+//
+//	DEC <hexdoc> <class>
+//	    cue=<canon|REJECT> std=<canon|REJECT|INVALID> valid=<0|1> dec=<same|diff|-> blt=<same|diff|-> m=<hex|->
+//	    cue: json.Extract + BuildExpr + walk; std: encoding/json token walk (UseNumber),
+//	    last duplicate wins; dec: the streaming Decoder agrees with Extract; blt: the
+//	    builtin encoding/json.Unmarshal agrees with Extract; m: Value.MarshalJSON bytes.
+//	ENC <hexjson> <class> <truth canon>
+//	    walk=<canon> std=<canon|REJECT> rt=<canon|REJECT> blt=<same|diff|->
+//	    hexjson = MarshalJSON of a generated value (or of a decoded document);
+//	    walk: the value itself; std: encoding/json reading of the bytes; rt: cue reading them back.
+//	STR <hexlit>   cue=<ok:hex|err> json=<ok:hex|err>      literal.Unquote / encoding/json
+//	NUM <hextext>  <ok:base:isint:num|err|nan> rd=<num|none|nan>   literal.ParseNum (+ Decimal); -x for rd
+//	FMT <neg> <coeff> <exp>   <hex>      apd Decimal.Append(.., 'G')
+//	ESC <hexbytes> <hex>                  internal/encoding/json.Marshal(string)
 package main
 
 import (
 	"bytes"
 	stdjson "encoding/json"
 	"fmt"
-	_ "strings"
+	"io"
+	"math/big"
+	"os"
+	"strconv"
+	"strings"
+	"unicode/utf8"
 
 	"cuelang.org/go/cue"
+	"cuelang.org/go/cue/ast"
 	"cuelang.org/go/cue/cuecontext"
-	"cuelang.org/go/encoding/json"
+	"cuelang.org/go/cue/literal"
+	"cuelang.org/go/cue/token"
+	cuejson "cuelang.org/go/encoding/json"
+	internaljson "cuelang.org/go/internal/encoding/json"
+	"cuelang.org/go/internal/verifharness/common"
+	"github.com/cockroachdb/apd/v3"
+	"golang.org/x/text/unicode/norm"
 )
 
-func main() {
-	ctx := cuecontext.New()
-	docs := []string{
-		"\"\ufeff\"", "\"a\ufeff\"", `"\ufeff"`, `["\ufeffabcdefghijklmn"]`, "\"\ufffd\"", "\"\uffff\ufffe\"", "\"\U0010ffff\"",
-		`1e100000`, `1e100001`, `5e100001`, `10e100000`, `1e-100000`, `1e-100001`, `0.1e-100000`, `123e-100001`, `1e2147483647`, `0e100001`, `1.5e99999`,
-		`{"a":1,"a":1.0}`, `{"a":1.0,"a":1.00}`, `{"a":1.00,"a":1.0}`, `{"a":[1],"a":[1]}`, `{"a":[1],"a":[1,2]}`, `{"a":null,"a":null}`, `{"a":"x","a":"x"}`, `{"a":"x","a":"y"}`,
-		`{"a":{"x":1,"y":2},"a":{"y":2,"x":1}}`, `{"a":{"x":1},"b":2,"a":{"y":2}}`, `{"b":1,"a":2,"b":1}`, `{"a":{"y":2},"a":{"x":1,"y":2}}`, `[{"a":1,"a":1}]`, `{"a":true,"a":false}`,
-		`{"z":1,"a":2,"m":3,"_":4,"A":5,"0":6}`,
-		`"line1\nline2 long enough"`, `"trailing newline long\n"`, `"a\rb long enough xx"`, `"\n"`, `"\n\n\n\n\n\n"`, `"\"\"\"\n\"\"\" ###"`, `"tab\there\nand there #\""`, `"x\\ny long long long"`, `" \n \t\n  x"`, `"a\u2028b\nlong long long"`, `"\u0085\n long long long"`, `"\u0000\n long long long"`,`"\u007f\u001f\n long long long"`,
+var ctx = cuecontext.New()
+
+// ------------------------------------------------------------ canon ----
+
+func canonNum(isInt bool, neg bool, coeff *big.Int, exp int64) string {
+	k := "d"
+	if isInt {
+		k = "i"
 	}
-	for _, d := range docs {
-		show(ctx, d)
+	s := ""
+	if neg && coeff.Sign() != 0 {
+		s = "-"
 	}
+	return "#" + k + s + new(big.Int).Abs(coeff).String() + "e" + strconv.FormatInt(exp, 10)
 }
 
-func show(ctx *cue.Context, d string) {
-	lab := d
-	if len(lab) > 60 {
-		lab = lab[:60] + "..."
+func canonStr(prefix string, s string) string {
+	if s == "" {
+		return prefix
 	}
-	valid := stdjson.Valid([]byte(d))
-	expr, err := json.Extract("x.json", []byte(d))
+	return prefix + common.Hex(s)
+}
+
+// walk a concrete cue.Value; nfcKeys: member names are NFC-normalised on the way out
+var nfcKeys bool
+
+func walk(v cue.Value, b *strings.Builder) error {
+	switch v.Kind() {
+	case cue.NullKind:
+		b.WriteString("n")
+	case cue.BoolKind:
+		x, err := v.Bool()
+		if err != nil {
+			return err
+		}
+		if x {
+			b.WriteString("t")
+		} else {
+			b.WriteString("f")
+		}
+	case cue.IntKind, cue.FloatKind:
+		var m big.Int
+		e, err := v.MantExp(&m)
+		if err != nil {
+			if err == cue.ErrInfinite {
+				b.WriteString("#N")
+				return nil
+			}
+			return err
+		}
+		b.WriteString(canonNum(v.Kind() == cue.IntKind, m.Sign() < 0, &m, int64(e)))
+	case cue.StringKind:
+		s, err := v.String()
+		if err != nil {
+			return err
+		}
+		b.WriteString(canonStr("s", s))
+	case cue.ListKind:
+		it, err := v.List()
+		if err != nil {
+			return err
+		}
+		b.WriteString("[")
+		for i := 0; it.Next(); i++ {
+			if i > 0 {
+				b.WriteString(",")
+			}
+			if err := walk(it.Value(), b); err != nil {
+				return err
+			}
+		}
+		b.WriteString("]")
+	case cue.StructKind:
+		it, err := v.Fields()
+		if err != nil {
+			return err
+		}
+		b.WriteString("{")
+		for i := 0; it.Next(); i++ {
+			if i > 0 {
+				b.WriteString(",")
+			}
+			sel := it.Selector()
+			if sel.LabelType() != cue.StringLabel {
+				return fmt.Errorf("non-string label %v", sel)
+			}
+			key := sel.Unquoted()
+			if nfcKeys {
+				key = norm.NFC.String(key)
+			}
+			b.WriteString(canonStr("k", key))
+			b.WriteString(":")
+			if err := walk(it.Value(), b); err != nil {
+				return err
+			}
+		}
+		b.WriteString("}")
+	default:
+		return fmt.Errorf("kind %v", v.Kind())
+	}
+	return nil
+}
+
+func walkCanon(v cue.Value) string {
+	if v.Err() != nil {
+		return "REJECT"
+	}
+	if err := v.Validate(cue.Concrete(true)); err != nil {
+		return "REJECT"
+	}
+	var b strings.Builder
+	if err := walk(v, &b); err != nil {
+		return "REJECT"
+	}
+	return b.String()
+}
+
+// number text (RFC 8259 grammar, as json.Number holds it) -> canon
+func numCanonFromText(t string) string {
+	neg := false
+	s := t
+	if strings.HasPrefix(s, "-") {
+		neg = true
+		s = s[1:]
+	}
+	exp := int64(0)
+	hasExp := false
+	expBig := false
+	if i := strings.IndexAny(s, "eE"); i >= 0 {
+		hasExp = true
+		e := new(big.Int)
+		if _, ok := e.SetString(strings.TrimPrefix(s[i+1:], "+"), 10); !ok {
+			return "#?"
+		}
+		if !e.IsInt64() {
+			expBig = true
+		} else {
+			exp = e.Int64()
+		}
+		s = s[:i]
+	}
+	frac := ""
+	hasFrac := false
+	if i := strings.IndexByte(s, '.'); i >= 0 {
+		hasFrac = true
+		frac = s[i+1:]
+		s = s[:i]
+	}
+	c := new(big.Int)
+	if _, ok := c.SetString(s+frac, 10); !ok {
+		return "#?"
+	}
+	k := "d"
+	if !hasExp && !hasFrac {
+		k = "i"
+	}
+	sg := ""
+	if neg && c.Sign() != 0 {
+		sg = "-"
+	}
+	if expBig {
+		// exponent beyond int64: print it exactly
+		e := new(big.Int)
+		i := strings.IndexAny(t, "eE")
+		e.SetString(strings.TrimPrefix(t[i+1:], "+"), 10)
+		e.Sub(e, big.NewInt(int64(len(frac))))
+		return "#" + k + sg + c.String() + "e" + e.String()
+	}
+	return "#" + k + sg + c.String() + "e" + strconv.FormatInt(exp-int64(len(frac)), 10)
+}
+
+type kvp struct {
+	k string
+	v string
+}
+
+// encoding/json reading of a document through the token API (keeps member order;
+// a repeated name replaces the earlier value in place = what a map decode keeps)
+func stdCanon(doc []byte) string {
+	dec := stdjson.NewDecoder(bytes.NewReader(doc))
+	dec.UseNumber()
+	s, err := stdValue(dec)
 	if err != nil {
-		fmt.Printf("%q valid=%v EXTRACT-ERR %.100v\n", lab, valid, err)
-		return
+		return "REJECT"
+	}
+	if _, err := dec.Token(); err != io.EOF {
+		return "REJECT"
+	}
+	return s
+}
+
+func stdValue(dec *stdjson.Decoder) (string, error) {
+	tok, err := dec.Token()
+	if err != nil {
+		return "", err
+	}
+	return stdFromToken(dec, tok)
+}
+
+func stdFromToken(dec *stdjson.Decoder, tok stdjson.Token) (string, error) {
+	switch x := tok.(type) {
+	case nil:
+		return "n", nil
+	case bool:
+		if x {
+			return "t", nil
+		}
+		return "f", nil
+	case stdjson.Number:
+		return numCanonFromText(string(x)), nil
+	case string:
+		return canonStr("s", x), nil
+	case stdjson.Delim:
+		switch x {
+		case '[':
+			var parts []string
+			for dec.More() {
+				s, err := stdValue(dec)
+				if err != nil {
+					return "", err
+				}
+				parts = append(parts, s)
+			}
+			if _, err := dec.Token(); err != nil {
+				return "", err
+			}
+			return "[" + strings.Join(parts, ",") + "]", nil
+		case '{':
+			var kvs []kvp
+			for dec.More() {
+				kt, err := dec.Token()
+				if err != nil {
+					return "", err
+				}
+				k, ok := kt.(string)
+				if !ok {
+					return "", fmt.Errorf("key")
+				}
+				if keySink != nil {
+					keySink(k)
+				}
+				s, err := stdValue(dec)
+				if err != nil {
+					return "", err
+				}
+				found := false
+				for i := range kvs {
+					if kvs[i].k == k {
+						kvs[i].v = s
+						found = true
+						break
+					}
+				}
+				if !found {
+					kvs = append(kvs, kvp{k, s})
+				}
+			}
+			if _, err := dec.Token(); err != nil {
+				return "", err
+			}
+			parts := make([]string, len(kvs))
+			for i, p := range kvs {
+				parts[i] = canonStr("k", p.k) + ":" + p.v
+			}
+			return "{" + strings.Join(parts, ",") + "}", nil
+		}
+	}
+	return "", fmt.Errorf("token %v", tok)
+}
+
+// ------------------------------------------------- implementation side ----
+
+func cueDecode(doc []byte) (cue.Value, bool) {
+	expr, err := cuejson.Extract("x.json", doc)
+	if err != nil {
+		return cue.Value{}, false
 	}
 	v := ctx.BuildExpr(expr)
 	if v.Err() != nil {
-		fmt.Printf("%q valid=%v BUILD-ERR %.100v\n", lab, valid, v.Err())
-		return
+		return v, false
 	}
-	b, err := v.MarshalJSON()
+	return v, true
+}
+
+func cueCanon(doc []byte) (string, cue.Value) {
+	v, ok := cueDecode(doc)
+	if !ok {
+		return "REJECT", v
+	}
+	return walkCanon(v), v
+}
+
+// the streaming decoder on the same single document
+func decoderCanon(doc []byte) string {
+	d := cuejson.NewDecoder(nil, "x.json", bytes.NewReader(doc))
+	expr, err := d.Extract()
 	if err != nil {
-		fmt.Printf("%q valid=%v MARSHAL-ERR %.100v\n", lab, valid, err)
+		return "REJECT"
+	}
+	if _, err := d.Extract(); err != io.EOF {
+		return "REJECT"
+	}
+	v := ctx.BuildExpr(expr)
+	return walkCanon(v)
+}
+
+var bltUnmarshal, bltMarshal cue.Value
+
+func initBuiltins() {
+	v := ctx.CompileString(`import "encoding/json"
+U: {s: string, out: json.Unmarshal(s)}
+M: {v: _, out: json.Marshal(v)}
+`)
+	if v.Err() != nil {
+		panic(v.Err())
+	}
+	bltUnmarshal = v.LookupPath(cue.ParsePath("U"))
+	bltMarshal = v.LookupPath(cue.ParsePath("M"))
+}
+
+// pkg/encoding/json Unmarshal builtin
+func builtinCanon(doc []byte) string {
+	if !utf8.Valid(doc) {
+		return "REJECT"
+	}
+	x := bltUnmarshal.FillPath(cue.ParsePath("s"), string(doc))
+	out := x.LookupPath(cue.ParsePath("out"))
+	return walkCanon(out)
+}
+
+// pkg/encoding/json Marshal builtin
+func builtinMarshal(v cue.Value) (string, bool) {
+	x := bltMarshal.FillPath(cue.ParsePath("v"), v)
+	out := x.LookupPath(cue.ParsePath("out"))
+	s, err := out.String()
+	if err != nil {
+		return "", false
+	}
+	return s, true
+}
+
+func walkCanonNFC(v cue.Value) string {
+	nfcKeys = true
+	defer func() { nfcKeys = false }()
+	return walkCanon(v)
+}
+
+// member names of a valid document that cue will change: string labels (those that
+// need quoting in CUE) are NFC-normalised by internal/core/compile/label.go
+func nfcTable(doc []byte) string {
+	var parts []string
+	seen := map[string]bool{}
+	keySink = func(k string) {
+		if nk := norm.NFC.String(k); nk != k && ast.StringLabelNeedsQuoting(k) && !seen[k] {
+			seen[k] = true
+			parts = append(parts, common.Hex(k)+":"+common.Hex(nk))
+		}
+	}
+	stdCanon(doc)
+	keySink = nil
+	if len(parts) == 0 {
+		return "-"
+	}
+	return strings.Join(parts, ";")
+}
+
+var keySink func(string)
+
+func sameOr(a, b string) string {
+	if a == b {
+		return "same"
+	}
+	return "diff"
+}
+
+type emitter struct {
+	out     *common.Out
+	noExtra bool
+}
+
+func (e *emitter) dec(doc []byte, class string) {
+	valid := stdjson.Valid(doc)
+	cc, v := cueCanon(doc)
+	std := "INVALID"
+	if valid {
+		std = stdCanon(doc)
+	}
+	dc := sameOr(cc, decoderCanon(doc))
+	bl := "-"
+	if len(doc) < 4000 {
+		// the builtin keeps every label a string label (NFC-normalised), json.Extract turns
+		// identifier-like labels into identifiers (not normalised): compare modulo NFC of names
+		bc := "REJECT"
+		if cc != "REJECT" {
+			bc = walkCanonNFC(v)
+		}
+		nfcKeys = true
+		bl = sameOr(bc, builtinCanon(doc))
+		nfcKeys = false
+	}
+	nt := "-"
+	if valid {
+		nt = nfcTable(doc)
+	}
+	m := "-"
+	var mb []byte
+	if cc != "REJECT" {
+		b, err := v.MarshalJSON()
+		if err == nil {
+			mb = b
+			m = common.Hex(string(b))
+		} else {
+			m = "ERR"
+		}
+	}
+	vb := 0
+	if valid {
+		vb = 1
+	}
+	e.out.Emit(fmt.Sprintf("DEC %s %s", common.Hex(string(doc)), class),
+		fmt.Sprintf("cue=%s std=%s valid=%d dec=%s blt=%s nfc=%s m=%s", cc, std, vb, dc, bl, nt, m))
+	if mb != nil && !e.noExtra {
+		e.enc(mb, "remarshal", cc, v)
+	}
+}
+
+func (e *emitter) enc(mb []byte, class, truth string, v cue.Value) {
+	w := walkCanon(v)
+	std := stdCanon(mb)
+	rt, _ := cueCanon(mb)
+	bl := "-"
+	// a NaN number (exponent text beyond int32, known finding) makes FillPath panic
+	// in adt.insertValueConjunct: do not feed it to the builtin
+	if len(mb) < 4000 && !strings.Contains(w, "#N") {
+		if s, ok := builtinMarshal(v); ok {
+			bl = sameOr(string(mb), s)
+		} else {
+			bl = "diff"
+		}
+	}
+	e.out.Emit(fmt.Sprintf("ENC %s %s %s", common.Hex(string(mb)), class, truth),
+		fmt.Sprintf("walk=%s std=%s rt=%s blt=%s nfc=%s", w, std, rt, bl, nfcTable(mb)))
+}
+
+func (e *emitter) str(lit string) {
+	c := "err"
+	if s, err := literal.Unquote(lit); err == nil {
+		c = "ok:" + common.Hex(s)
+	}
+	j := "err"
+	var s string
+	if stdjson.Valid([]byte(lit)) && len(lit) > 1 && lit[0] == '"' && lit[len(lit)-1] == '"' && utf8.ValidString(lit) {
+		if err := stdjson.Unmarshal([]byte(lit), &s); err == nil {
+			j = "ok:" + common.Hex(s)
+		}
+	}
+	e.out.Emit("STR "+common.Hex(lit), fmt.Sprintf("cue=%s json=%s", c, j))
+}
+
+func apdCanon(isInt bool, d *apd.Decimal) string {
+	if d.Form != apd.Finite {
+		return "nan"
+	}
+	return canonNum(isInt, d.Negative, d.Coeff.MathBigInt(), int64(d.Exponent))
+}
+
+func (e *emitter) num(text string) {
+	var info literal.NumInfo
+	a := "err"
+	if err := literal.ParseNum(text, &info); err == nil {
+		var d apd.Decimal
+		base := 10
+		switch {
+		case strings.HasPrefix(strings.TrimLeft(text, "+-"), "0x"), strings.HasPrefix(strings.TrimLeft(text, "+-"), "0X"):
+			base = 16
+		case strings.HasPrefix(strings.TrimLeft(text, "+-"), "0b"):
+			base = 2
+		case strings.HasPrefix(strings.TrimLeft(text, "+-"), "0o"):
+			base = 8
+		}
+		isInt := 0
+		if info.IsInt() {
+			isInt = 1
+		}
+		if info.Multiplier() != 0 {
+			a = "other"
+		} else if base != 10 {
+			a = fmt.Sprintf("ok:%d:%d:-", base, isInt)
+		} else if err := info.Decimal(&d); err != nil {
+			a = "err"
+		} else {
+			a = fmt.Sprintf("ok:10:%d:%s", isInt, apdCanon(info.IsInt(), &d))
+		}
+	} else if m := info.Multiplier(); m != 0 {
+		a = "other"
+	}
+	// the text as a CUE expression: optional unary minus + literal
+	rd := "skip"
+	if !strings.ContainsAny(text, " \t\r\n") && isPlainNumberExpr(text) {
+		rd = "none"
+		v := ctx.CompileString(text)
+		if v.Err() == nil && (v.Kind() == cue.IntKind || v.Kind() == cue.FloatKind) {
+			var mnt big.Int
+			ex, err := v.MantExp(&mnt)
+			if err == nil {
+				rd = canonNum(v.Kind() == cue.IntKind, mnt.Sign() < 0, &mnt, int64(ex))
+			} else if err == cue.ErrInfinite {
+				rd = "nan"
+			}
+		}
+	}
+	e.out.Emit("NUM "+common.Hex(text), fmt.Sprintf("%s rd=%s", a, rd))
+}
+
+// only texts that are [-] followed by one decimal number literal without multiplier are compared for rd
+func isPlainNumberExpr(t string) bool {
+	t = strings.TrimPrefix(t, "-")
+	if t == "" || !(t[0] == '.' || (t[0] >= '0' && t[0] <= '9')) || strings.HasPrefix(t, "0x") || strings.HasPrefix(t, "0X") || strings.HasPrefix(t, "0b") || strings.HasPrefix(t, "0o") {
+		return false
+	}
+	for _, c := range t {
+		switch {
+		case c >= '0' && c <= '9', c == '.', c == 'e', c == 'E', c == '+', c == '-', c == '_':
+		default:
+			return false
+		}
+	}
+	// "1-2", "1+2" are binary expressions
+	for i := 1; i < len(t); i++ {
+		if (t[i] == '+' || t[i] == '-') && t[i-1] != 'e' && t[i-1] != 'E' {
+			return false
+		}
+	}
+	return true
+}
+
+func (e *emitter) fmtG(neg bool, coeff *big.Int, exp int32) {
+	var d apd.Decimal
+	d.Coeff.SetMathBigInt(coeff)
+	d.Exponent = exp
+	d.Negative = neg
+	nb := 0
+	if neg {
+		nb = 1
+	}
+	e.out.Emit(fmt.Sprintf("FMT %d %s %d", nb, coeff.String(), exp), common.Hex(d.Text('G')))
+}
+
+func (e *emitter) esc(s string) {
+	b, err := internaljson.Marshal(s)
+	r := "ERR"
+	if err == nil {
+		r = common.Hex(string(b))
+	}
+	e.out.Emit("ESC "+common.Hex(s), r)
+}
+
+// ---------------------------------------------------------- generators ----
+
+var runePool = []rune{0, 1, 7, 8, 9, 10, 12, 13, 0x1b, 0x1f, ' ', '!', '"', '#', '$', '\'', '(', ')', '/', '0', '<', '>', '&', 'A', '\\', '_', 'a', 'n', 'u', '{', '}', 0x7f,
+	0x80, 0x85, 0xa0, 0xe9, 0x7ff, 0x800, 0x2027, 0x2028, 0x2029, 0x202a, 0xd7ff, 0xe000, 0xfdd0, 0xfeff, 0xfffd, 0xfffe, 0xffff,
+	0x10000, 0x1f600, 0x10ffff}
+
+func genRune(r *common.Rng, allowBOM bool) rune {
+	for {
+		var c rune
+		switch r.Intn(10) {
+		case 0, 1, 2:
+			c = common.Pick(r, runePool)
+		case 3, 4, 5, 6:
+			c = rune(0x20 + r.Intn(0x5f))
+		case 7:
+			c = rune(r.Intn(0x800))
+		case 8:
+			c = rune(r.Intn(0x10000))
+		default:
+			c = rune(r.Intn(0x110000))
+		}
+		if c >= 0xd800 && c <= 0xdfff {
+			continue
+		}
+		if c == 0xfeff && !allowBOM {
+			continue
+		}
+		return c
+	}
+}
+
+func genString(r *common.Rng, allowBOM bool) string {
+	n := 0
+	switch r.Intn(8) {
+	case 0:
+		n = 0
+	case 1, 2, 3:
+		n = 1 + r.Intn(4)
+	case 4, 5, 6:
+		n = 4 + r.Intn(12)
+	default:
+		n = 10 + r.Intn(60)
+	}
+	var b strings.Builder
+	for i := 0; i < n; i++ {
+		b.WriteRune(genRune(r, allowBOM))
+	}
+	return b.String()
+}
+
+var hexDigitsLower = "0123456789abcdef"
+var hexDigitsMixed = "0123456789abcdefABCDEF"
+
+func u4(r *common.Rng, c rune) string {
+	s := fmt.Sprintf("%04x", c)
+	b := []byte(s)
+	for i := range b {
+		if r.Bool() && b[i] >= 'a' {
+			b[i] -= 32
+		}
+	}
+	return "\\u" + string(b)
+}
+
+// JSON spelling of a string value: every rune either raw (if allowed) or escaped in one of its forms
+func spellString(r *common.Rng, s string, style int) string {
+	var b strings.Builder
+	b.WriteByte('"')
+	for _, c := range s {
+		esc := false
+		switch {
+		case c < 0x20 || c == '"' || c == '\\':
+			esc = true
+		case style == 0:
+			esc = false
+		case style == 1:
+			esc = r.Chance(1, 4)
+		default:
+			esc = true
+		}
+		if !esc {
+			b.WriteRune(c)
+			continue
+		}
+		short := map[rune]string{'"': `\"`, '\\': `\\`, '/': `\/`, 8: `\b`, 12: `\f`, 10: `\n`, 13: `\r`, 9: `\t`}
+		if sh, ok := short[c]; ok && r.Chance(3, 4) {
+			b.WriteString(sh)
+			continue
+		}
+		if c >= 0x10000 {
+			c -= 0x10000
+			b.WriteString(u4(r, 0xd800+(c>>10)))
+			b.WriteString(u4(r, 0xdc00+(c&0x3ff)))
+			continue
+		}
+		b.WriteString(u4(r, c))
+	}
+	b.WriteByte('"')
+	return b.String()
+}
+
+func digits(r *common.Rng, n int) string {
+	b := make([]byte, n)
+	for i := range b {
+		b[i] = byte('0' + r.Intn(10))
+	}
+	return string(b)
+}
+
+// a JSON number text from the full RFC 8259 grammar; exponent magnitude bounded by maxExp
+func genNumberText(r *common.Rng, maxExp int) string {
+	var b strings.Builder
+	if r.Chance(1, 3) {
+		b.WriteByte('-')
+	}
+	switch r.Intn(6) {
+	case 0:
+		b.WriteByte('0')
+	case 1, 2, 3:
+		b.WriteByte(byte('1' + r.Intn(9)))
+		b.WriteString(digits(r, r.Intn(6)))
+	case 4:
+		b.WriteByte(byte('1' + r.Intn(9)))
+		b.WriteString(digits(r, 15+r.Intn(30)))
+	default:
+		b.WriteByte(byte('1' + r.Intn(9)))
+		b.WriteString(digits(r, r.Intn(3)))
+	}
+	if r.Chance(2, 5) {
+		b.WriteByte('.')
+		switch r.Intn(4) {
+		case 0:
+			b.WriteString(digits(r, 1))
+		case 1, 2:
+			b.WriteString(digits(r, 1+r.Intn(6)))
+		default:
+			b.WriteString(digits(r, 20+r.Intn(30)))
+		}
+	}
+	if r.Chance(2, 5) {
+		b.WriteByte("eE"[r.Intn(2)])
+		switch r.Intn(3) {
+		case 0:
+			b.WriteByte('+')
+		case 1:
+			b.WriteByte('-')
+		}
+		if r.Chance(1, 5) {
+			b.WriteString("00")
+		}
+		switch r.Intn(5) {
+		case 0:
+			b.WriteString("0")
+		case 1, 2:
+			b.WriteString(strconv.Itoa(r.Intn(40)))
+		case 3:
+			b.WriteString(strconv.Itoa(300 + r.Intn(200)))
+		default:
+			b.WriteString(strconv.Itoa(r.Intn(maxExp)))
+		}
+	}
+	return b.String()
+}
+
+var wsChars = []string{" ", "\t", "\n", "\r", "\r\n", "  ", " \n\t"}
+
+type docGen struct {
+	r       *common.Rng
+	ws      int  // 0 none, 1 some, 2 heavy
+	dup     bool // may repeat a member name
+	bom     bool // strings may contain raw U+FEFF
+	lone    bool // strings may contain unpaired surrogate escapes
+	maxExp  int
+	strSty  int
+	nodes   int
+	maxNode int
+}
+
+func (g *docGen) w(b *strings.Builder) {
+	switch g.ws {
+	case 1:
+		if g.r.Chance(1, 4) {
+			b.WriteString(common.Pick(g.r, wsChars))
+		}
+	case 2:
+		for g.r.Chance(2, 3) {
+			b.WriteString(common.Pick(g.r, wsChars))
+		}
+	}
+}
+
+func (g *docGen) str(b *strings.Builder) {
+	s := genString(g.r, g.bom)
+	t := spellString(g.r, s, g.strSty)
+	if g.lone && g.r.Chance(1, 3) {
+		// insert an unpaired surrogate escape somewhere (at a rune boundary, not inside an escape)
+		lone := u4(g.r, rune(0xd800+g.r.Intn(0x800)))
+		t = t[:len(t)-1] + lone + `"`
+		if g.r.Bool() {
+			t = `"` + lone + t[1:]
+		}
+	}
+	b.WriteString(t)
+}
+
+func (g *docGen) value(b *strings.Builder, depth int) {
+	g.nodes++
+	k := g.r.Intn(10)
+	if depth <= 0 || g.nodes > g.maxNode {
+		k = g.r.Intn(6)
+	}
+	switch k {
+	case 0:
+		b.WriteString("null")
+	case 1:
+		b.WriteString(common.Pick(g.r, []string{"true", "false"}))
+	case 2, 3:
+		b.WriteString(genNumberText(g.r, g.maxExp))
+	case 4, 5:
+		g.str(b)
+	case 6, 7:
+		b.WriteByte('[')
+		g.w(b)
+		n := g.r.Intn(5)
+		for i := 0; i < n; i++ {
+			if i > 0 {
+				b.WriteByte(',')
+				g.w(b)
+			}
+			g.value(b, depth-1)
+			g.w(b)
+		}
+		b.WriteByte(']')
+	default:
+		b.WriteByte('{')
+		g.w(b)
+		n := g.r.Intn(5)
+		var keys []string
+		for i := 0; i < n; i++ {
+			if i > 0 {
+				b.WriteByte(',')
+				g.w(b)
+			}
+			var key string
+			if g.dup && len(keys) > 0 && g.r.Chance(1, 2) {
+				key = common.Pick(g.r, keys)
+			} else {
+				for tries := 0; ; tries++ {
+					var kb strings.Builder
+					if g.r.Chance(1, 2) {
+						kb.WriteString(spellString(g.r, common.Pick(g.r, keyPool), g.strSty))
+					} else {
+						save := g.lone
+						g.lone = false
+						g.str(&kb)
+						g.lone = save
+					}
+					key = kb.String()
+					fresh := true
+					for _, o := range keys {
+						if sameKey(o, key) {
+							fresh = false
+						}
+					}
+					if fresh || tries > 20 {
+						break
+					}
+				}
+			}
+			keys = append(keys, key)
+			b.WriteString(key)
+			g.w(b)
+			b.WriteByte(':')
+			g.w(b)
+			g.value(b, depth-1)
+			g.w(b)
+		}
+		b.WriteByte('}')
+	}
+}
+
+var keyPool = []string{"", "a", "b", "c", "_", "_a", "#a", "_#a", "__x", "a-b", "a b", "0", "1a", "if", "for", "let", "in", "null", "true", "false", "_|_", "é", "a.b", "\"", "\\", "x/y", "😀", "$", "$a", "a$", "A", "Z9", "__", "#", "import", "package", "div", "mod", "quo", "rem"}
+
+func sameKey(a, b string) bool {
+	var x, y string
+	if stdjson.Unmarshal([]byte(a), &x) != nil || stdjson.Unmarshal([]byte(b), &y) != nil {
+		return a == b
+	}
+	return x == y
+}
+
+func (g *docGen) doc(depth int) string {
+	var b strings.Builder
+	g.nodes = 0
+	g.w(&b)
+	g.value(&b, depth)
+	g.w(&b)
+	return b.String()
+}
+
+// ---- mutations: invalid and borderline documents
+var mutInserts = []string{",", ":", "]", "}", "[", "{", "\"", "\\", "0", "1", ".", "e", "-", "+", " ", "\x00", "\x01", "\t", "\n", "\x7f", "\xff", "\xc0\x80", "\xed\xa0\x80", "\xef\xbb\xbf", "'", "/", "//", "/*", "_", "x", "u", "\\u12", "\\x41", "\\a", "\\v", "\\'", "\\(", "tru", "nul", "NaN", "Infinity", "0x1", "1K", "\f", "\v", "\u00a0", "\u2028", "#", "\\U0001F600", "\\ud800", "\\udc00"}
+
+func mutate(r *common.Rng, d string) string {
+	b := []byte(d)
+	if len(b) == 0 {
+		return common.Pick(r, mutInserts)
+	}
+	switch r.Intn(7) {
+	case 0: // delete a byte
+		i := r.Intn(len(b))
+		return string(b[:i]) + string(b[i+1:])
+	case 1: // insert a token
+		i := r.Intn(len(b) + 1)
+		return string(b[:i]) + common.Pick(r, mutInserts) + string(b[i:])
+	case 2: // replace a byte
+		i := r.Intn(len(b))
+		return string(b[:i]) + common.Pick(r, mutInserts) + string(b[i+1:])
+	case 3: // truncate
+		return string(b[:r.Intn(len(b))])
+	case 4: // duplicate a byte
+		i := r.Intn(len(b))
+		return string(b[:i+1]) + string(b[i:])
+	case 5: // swap two adjacent bytes
+		if len(b) < 2 {
+			return string(b) + string(b)
+		}
+		i := r.Intn(len(b) - 1)
+		b[i], b[i+1] = b[i+1], b[i]
+		return string(b)
+	default: // append
+		return string(b) + common.Pick(r, mutInserts)
+	}
+}
+
+// ---- data generator: concrete CUE values with their ground truth
+type truthNum struct {
+	isInt bool
+	neg   bool
+	coeff *big.Int
+	exp   int64
+}
+
+func genCueNumber(r *common.Rng) (ast.Expr, string) {
+	neg := r.Chance(1, 3)
+	var lit string
+	var tn truthNum
+	tn.neg = neg
+	switch r.Intn(8) {
+	case 0, 1: // integers incl. big ones
+		n := 1 + r.Intn(4)
+		if r.Chance(1, 4) {
+			n = 20 + r.Intn(40)
+		}
+		ds := digits(r, n)
+		ds = strings.TrimLeft(ds, "0")
+		if ds == "" {
+			ds = "0"
+		}
+		lit = ds
+		tn.isInt = true
+		tn.coeff, _ = new(big.Int).SetString(ds, 10)
+	case 2: // integer with separators / other bases / multipliers
+		switch r.Intn(4) {
+		case 0:
+			lit = "1_000_000"
+			tn.coeff = big.NewInt(1000000)
+		case 1:
+			x := r.Intn(1 << 30)
+			lit = fmt.Sprintf("0x%X", x)
+			tn.coeff = big.NewInt(int64(x))
+		case 2:
+			x := r.Intn(1 << 20)
+			lit = fmt.Sprintf("0b%b", x)
+			tn.coeff = big.NewInt(int64(x))
+		default:
+			x := 1 + r.Intn(999)
+			lit = fmt.Sprintf("%dK", x)
+			tn.coeff = big.NewInt(int64(x) * 1000)
+		}
+		tn.isInt = true
+	case 3, 4, 5: // decimal floats
+		ip := strconv.Itoa(r.Intn(100000))
+		fp := digits(r, 1+r.Intn(8))
+		if r.Chance(1, 4) {
+			fp = digits(r, 20+r.Intn(30))
+		}
+		lit = ip + "." + fp
+		tn.coeff, _ = new(big.Int).SetString(ip+fp, 10)
+		tn.exp = -int64(len(fp))
+		if r.Chance(1, 3) {
+			e := r.Intn(600) - 300
+			lit += "e" + strconv.Itoa(e)
+			tn.exp += int64(e)
+		}
+	case 6: // exponent forms
+		ip := strconv.Itoa(1 + r.Intn(999))
+		e := r.Intn(9000) - 4500
+		if r.Chance(1, 3) {
+			e = r.Intn(40) - 20
+		}
+		lit = ip + "e" + strconv.Itoa(e)
+		if r.Bool() {
+			lit = ip + "E+" + strconv.Itoa(abs(e))
+			e = abs(e)
+		}
+		tn.coeff, _ = new(big.Int).SetString(ip, 10)
+		tn.exp = int64(e)
+	default: // .5 style and zero forms
+		switch r.Intn(4) {
+		case 0:
+			fp := digits(r, 1+r.Intn(5))
+			lit = "." + fp
+			tn.coeff, _ = new(big.Int).SetString(fp, 10)
+			tn.exp = -int64(len(fp))
+		case 1:
+			lit = "0.0"
+			tn.coeff = big.NewInt(0)
+			tn.exp = -1
+		case 2:
+			n := 1 + r.Intn(12)
+			lit = "0." + strings.Repeat("0", n)
+			tn.coeff = big.NewInt(0)
+			tn.exp = -int64(n)
+		default:
+			lit = "0e0"
+			tn.coeff = big.NewInt(0)
+		}
+	}
+	kind := token.FLOAT
+	if tn.isInt {
+		kind = token.INT
+	}
+	var e ast.Expr = &ast.BasicLit{Kind: kind, Value: lit}
+	if neg {
+		e = &ast.UnaryExpr{Op: token.SUB, X: e}
+	}
+	return e, canonNum(tn.isInt, tn.neg, tn.coeff, tn.exp)
+}
+
+func abs(x int) int {
+	if x < 0 {
+		return -x
+	}
+	return x
+}
+
+func cueStringLit(r *common.Rng, s string) ast.Expr {
+	switch r.Intn(4) {
+	case 0:
+		return &ast.BasicLit{Kind: token.STRING, Value: literal.String.WithOptionalTabIndent(1).Quote(s)}
+	case 1:
+		return &ast.BasicLit{Kind: token.STRING, Value: literal.String.WithOptionalHashes().Quote(s)}
+	default:
+		return ast.NewString(s)
+	}
+}
+
+type valGen struct {
+	r     *common.Rng
+	nodes int
+	nfc   int // labels changed by NFC normalisation
+}
+
+func (g *valGen) value(depth int) (ast.Expr, string) {
+	g.nodes++
+	k := g.r.Intn(10)
+	if depth <= 0 || g.nodes > 60 {
+		k = g.r.Intn(6)
+	}
+	switch k {
+	case 0:
+		return ast.NewNull(), "n"
+	case 1:
+		if g.r.Bool() {
+			return ast.NewBool(true), "t"
+		}
+		return ast.NewBool(false), "f"
+	case 2, 3:
+		return genCueNumber(g.r)
+	case 4, 5:
+		s := genString(g.r, true)
+		return cueStringLit(g.r, s), canonStr("s", s)
+	case 6, 7:
+		n := g.r.Intn(5)
+		var elts []ast.Expr
+		var parts []string
+		for i := 0; i < n; i++ {
+			e, t := g.value(depth - 1)
+			elts = append(elts, e)
+			parts = append(parts, t)
+		}
+		return ast.NewList(elts...), "[" + strings.Join(parts, ",") + "]"
+	default:
+		n := g.r.Intn(6)
+		var fields []interface{}
+		var parts []string
+		seen := map[string]bool{}
+		for i := 0; i < n; i++ {
+			var key string
+			if g.r.Chance(2, 3) {
+				key = common.Pick(g.r, keyPool)
+			} else {
+				key = genString(g.r, true)
+			}
+			if seen[key] {
+				continue
+			}
+			seen[key] = true
+			e, t := g.value(depth - 1)
+			var lab ast.Label = ast.NewString(key)
+			if ast.IsValidIdent(key) && !strings.HasPrefix(key, "_") && !strings.HasPrefix(key, "#") && g.r.Bool() {
+				if _, err := strconv.Unquote(`"` + key + `"`); err == nil && token.Lookup(key) == token.IDENT {
+					lab = ast.NewIdent(key)
+				}
+			}
+			fields = append(fields, &ast.Field{Label: lab, Value: e})
+			if _, isIdent := lab.(*ast.Ident); !isIdent {
+				// string labels are NFC-normalised by the compiler (finding F13): the truth follows
+				if nk := norm.NFC.String(key); nk != key {
+					if seen[nk] {
+						fields = fields[:len(fields)-1]
+						continue
+					}
+					seen[nk] = true
+					key = nk
+					g.nfc++
+				}
+			}
+			parts = append(parts, canonStr("k", key)+":"+t)
+		}
+		return ast.NewStruct(fields...), "{" + strings.Join(parts, ",") + "}"
+	}
+}
+
+// --------------------------------------------------------------- corpus ----
+
+func fixedDocs() [][2]string {
+	deep := func(o, c string, n int, mid string) string {
+		return strings.Repeat(o, n) + mid + strings.Repeat(c, n)
+	}
+	docs := [][2]string{
+		// known finding witnesses
+		{`"\ud800"`, "kf-lone"}, {`"\udc00"`, "kf-lone"}, {`"\ud800A"`, "kf-lone"}, {`["\ud800\ud800\udc00"]`, "kf-lone"},
+		{`{"a":"x\udfffy"}`, "kf-lone"}, {`{"\ud800":1}`, "kf-lone"},
+		{"\"\ufeff\"", "kf-bom"}, {"[\"a\ufeffb\"]", "kf-bom"}, {"{\"\ufeff\":1}", "kf-bom"},
+		{`"\ufeff"`, "kf-bom-esc"}, {`{"a":["x\uFEFFy"]}`, "kf-bom-esc"},
+		{`1e100001`, "kf-exp"}, {`5e-100001`, "kf-exp"}, {`10e100000`, "kf-exp"}, {`0.1e-100000`, "kf-exp"}, {`[1e2147483648]`, "kf-exp"},
+		{`1e99999999999999999999`, "kf-exp"}, {`-1e-2147483649`, "kf-exp"}, {`0e100001`, "kf-exp"}, {`{"a":1E+100001}`, "kf-exp"},
+		{`{"a":1,"a":2}`, "kf-dup"}, {`{"a":1,"a":1}`, "kf-dup"}, {`{"a":{"b":1},"a":{"c":2}}`, "kf-dup"}, {`{"a":1,"a":1.0}`, "kf-dup"},
+		{`{"a":1.0,"a":1.00}`, "kf-dup"}, {`{"a":[1],"a":[1,2]}`, "kf-dup"}, {`{"a":[1,{"x":1}],"a":[1,{"y":2}]}`, "kf-dup"},
+		{`{"a":{"x":1},"b":2,"a":{"y":2}}`, "kf-dup"}, {`{"b":1,"a":2,"b":1}`, "kf-dup"}, {`[{"a":null,"a":null}]`, "kf-dup"},
+		{`{"a":"x","a":"y"}`, "kf-dup"}, {`{"":1,"":1}`, "kf-dup"}, {`{"a":true,"a":false}`, "kf-dup"}, {`{"a":{},"a":[]}`, "kf-dup"},
+		{`"\"\""`, "kf-qq"}, {`"\"\"\""`, "kf-qq"}, {`["\"\"x"]`, "kf-qq"}, {`{"a":"\"\"\"#"}`, "kf-qq"}, {`"\u0022\u0022"`, "kf-qq"},
+		{`{"e\u0301":1}`, "kf-nfc"}, {`{"\uf9a0.":1}`, "kf-nfc"}, {`{"\u0387 ":{"a\u030a-":[1]}}`, "kf-nfc"}, {`{"\u212b ":1}`, "kf-nfc"},
+		{`{"\uf9a0":1}`, "fixed"}, {`{"\"\"x":1}`, "kf-qq"}, {`"x\"\"\""`, "fixed"}, {`"\"\"\"\n"`, "fixed"}, {`"\"\"\u0001"`, "fixed"},
+		// limits inside apd's range
+		{`1e100000`, "fixed"}, {`1e-100000`, "fixed"}, {`1.5e99999`, "fixed"}, {`12345e99996`, "fixed"}, {`0.00001e-99995`, "fixed"},
+		// every production
+		{`null`, "fixed"}, {`true`, "fixed"}, {`false`, "fixed"}, {`0`, "fixed"}, {`-0`, "fixed"}, {`-0.0`, "fixed"}, {`0e0`, "fixed"}, {`-0e-0`, "fixed"}, {`0E+0`, "fixed"},
+		{`1e400`, "fixed"}, {`1E-400`, "fixed"}, {`1.50`, "fixed"}, {`100`, "fixed"}, {`1e2`, "fixed"}, {`1E+2`, "fixed"}, {`1e0002`, "fixed"}, {`123456789012345678901234567890123456789012345678901234567890`, "fixed"},
+		{`0.000000000000000000000000000000000000000000000000001`, "fixed"}, {`3.141592653589793238462643383279502884197169399375105820974944592307816406286`, "fixed"},
+		{`""`, "fixed"}, {`"\"\\\/\b\f\n\r\t"`, "fixed"}, {`"\u0000\u001f\u007f\u0080\u00ff\u0100\uffff"`, "fixed"}, {`"\ud83d\ude00"`, "fixed"}, {`"\uD83D\uDE00"`, "fixed"},
+		{`"\udbff\udfff"`, "fixed"}, {`"\ud800\udc00"`, "fixed"}, {"\"\u2028\u2029\"", "fixed"}, {`"\u2028\u2029"`, "fixed"}, {"\"\x7f\"", "fixed"}, {"\"\ufffd\"", "fixed"}, {"\"\uffff\ufffe\"", "fixed"},
+		{`"<>&"`, "fixed"}, {`"\u003c"`, "fixed"}, {`"\\("`, "fixed"}, {`"a\\(b)"`, "fixed"}, {`"\\u0041"`, "fixed"}, {`"'"`, "fixed"}, {`"#"`, "fixed"}, {`"\"\"\""`, "fixed"}, {`"#\"#"`, "fixed"},
+		{`"line1\nline2 long enough"`, "fixed"}, {`"trailing newline long\n"`, "fixed"}, {`"a\rb long enough xx"`, "fixed"}, {`"\n"`, "fixed"}, {`"\n\n\n\n\n\n"`, "fixed"},
+		{`"\"\"\"\n\"\"\" ###"`, "fixed"}, {`" \n \t\n  x"`, "fixed"}, {`"\t\n\tindented\n\t"`, "fixed"}, {`"x\\\ny long long long"`, "fixed"},
+		{`[]`, "fixed"}, {`{}`, "fixed"}, {`[[],{}]`, "fixed"}, {`{"":{}}`, "fixed"}, {`{"":""}`, "fixed"}, {`[null,true,false,0,"",[],{}]`, "fixed"},
+		{" \t\r\n[ \t\r\n1 \t\r\n, \t\r\n2 \t\r\n] \t\r\n", "fixed"}, {"{ \"a\" : 1 , \"b\" : [ ] }", "fixed"}, {"\n{\n\t\"a\"\n:\n1\n}\n", "fixed"},
+		{`{"_a":1,"#b":2,"a-b":3,"_":4,"if":5,"null":6,"true":7,"a b":8,"1":9,"ä":10,"__x":11,"_#y":12,"$":13}`, "fixed"},
+		{`{"z":1,"a":2,"m":3,"_":4,"A":5,"0":6}`, "fixed"},
+		{deep("[", "]", 200, ""), "fixed"}, {deep(`{"a":`, "}", 200, "1"), "fixed"}, {deep(`[{"k":`, "}]", 100, `"v"`), "fixed"},
+		// invalid documents
+		{``, "bad"}, {` `, "bad"}, {`[1,]`, "bad"}, {`[,1]`, "bad"}, {`{"a":1,}`, "bad"}, {`{,}`, "bad"}, {`[1 2]`, "bad"}, {`{"a" 1}`, "bad"}, {`{"a":}`, "bad"}, {`{a:1}`, "bad"}, {`{'a':1}`, "bad"}, {`{1:1}`, "bad"},
+		{`'a'`, "bad"}, {`tru`, "bad"}, {`nul`, "bad"}, {`True`, "bad"}, {`NULL`, "bad"}, {`NaN`, "bad"}, {`Infinity`, "bad"}, {`-Infinity`, "bad"}, {`1 2`, "bad"}, {`[]]`, "bad"}, {`[[]`, "bad"}, {`{}}`, "bad"}, {`]`, "bad"},
+		{`01`, "bad"}, {`-01`, "bad"}, {`00`, "bad"}, {`1.`, "bad"}, {`.5`, "bad"}, {`-.5`, "bad"}, {`+1`, "bad"}, {`1e`, "bad"}, {`1e+`, "bad"}, {`1.e1`, "bad"}, {`1.5.5`, "bad"}, {`1e5e5`, "bad"}, {`-`, "bad"}, {`--1`, "bad"}, {`1_000`, "bad"}, {`0x10`, "bad"}, {`0b1`, "bad"}, {`0o7`, "bad"}, {`1K`, "bad"}, {`1Ki`, "bad"}, {`1e1.5`, "bad"}, {`0e`, "bad"},
+		{`"`, "bad"}, {`"a`, "bad"}, {`"\"`, "bad"}, {`"\`, "bad"}, {`"\a"`, "bad"}, {`"\v"`, "bad"}, {`"\x41"`, "bad"}, {`"\U0001F600"`, "bad"}, {`"\(x)"`, "bad"}, {`"\'"`, "bad"}, {`"\0"`, "bad"}, {`"\u12"`, "bad"}, {`"\u12g4"`, "bad"}, {`"\u{41}"`, "bad"}, {`"\ "`, "bad"},
+		{"\"a\tb\"", "bad"}, {"\"a\rb\"", "bad"}, {"\"a\nb\"", "bad"}, {"\"a\x00b\"", "bad"}, {"\"a\x1fb\"", "bad"}, {"\"\\\n\"", "bad"}, {`"""`, "bad"}, {`"""x"""`, "bad"}, {`#"x"#`, "bad"},
+		{"\ufeff1", "bad"}, {"\ufeff{}", "bad"}, {"\f1", "bad"}, {"\v1", "bad"}, {"\u00a01", "bad"}, {"1//c", "bad"}, {"1/*c*/", "bad"}, {"//c\n1", "bad"}, {"[1,2,...]", "bad"}, {"{a: 1}", "bad"}, {"1+1", "bad"}, {"(1)", "bad"}, {"[1,2][0]", "bad"}, {`"a"+"b"`, "bad"}, {`{"a":1}.a`, "bad"}, {`"\(1)"`, "bad"}, {`{"a":1,"b":a}`, "bad"}, {`_`, "bad"}, {`_|_`, "bad"}, {`int`, "bad"}, {`{"a"?:1}`, "bad"}, {`{"a":1} & {}`, "bad"}, {`[1]|[2]`, "bad"}, {`*1`, "bad"}, {`{"a":1,"b"::2}`, "bad"},
+		// invalid UTF-8 (json.Valid accepts, RFC 8259 section 8.1 does not)
+		{"\"\xff\"", "bad-utf8"}, {"\"\xed\xa0\x80\"", "bad-utf8"}, {"\"\xc0\x80\"", "bad-utf8"}, {"\"a\x80\"", "bad-utf8"}, {"\"\xf4\x90\x80\x80\"", "bad-utf8"}, {"{\"\xe2\x82\":1}", "bad-utf8"},
+	}
+	return docs
+}
+
+func readCorpus(path string) [][2]string {
+	b, err := os.ReadFile(path)
+	if err != nil {
+		return nil
+	}
+	var out [][2]string
+	for _, ln := range strings.Split(string(b), "\n") {
+		ln = strings.TrimSpace(ln)
+		if ln == "" || strings.HasPrefix(ln, "//") {
+			continue
+		}
+		f := strings.Fields(ln)
+		cl := "corpus"
+		if len(f) > 1 {
+			cl = f[1]
+		}
+		out = append(out, [2]string{common.Unhex(f[0]), cl})
+	}
+	return out
+}
+
+// ------------------------------------------------------------------ main ----
+
+func main() {
+	args := common.Args(os.Args[1:])
+	seed := uint64(common.Atoi(args["--seed"], 1))
+	outDir := args["--out"]
+	if outDir == "" {
+		outDir = "."
+	}
+	initBuiltins()
+	out := common.NewOut(outDir)
+	defer out.Close()
+	em := &emitter{out: out}
+
+	if f := args["--replay-cases"]; f != "" {
+		b, err := os.ReadFile(f)
+		if err != nil {
+			panic(err)
+		}
+		em.noExtra = args["--extra"] == ""
+		for _, ln := range strings.Split(string(b), "\n") {
+			fs := strings.Fields(ln)
+			if len(fs) < 2 {
+				continue
+			}
+			switch fs[0] {
+			case "DEC":
+				cl := "replay"
+				if len(fs) > 2 {
+					cl = fs[2]
+				}
+				em.dec([]byte(common.Unhex(fs[1])), cl)
+			case "ENC":
+				// re-marshal cannot be replayed from bytes alone: decode and marshal again
+				doc := []byte(common.Unhex(fs[1]))
+				if v, ok := cueDecode(doc); ok {
+					if mb, err := v.MarshalJSON(); err == nil {
+						em.enc(mb, "replay", walkCanon(v), v)
+					}
+				}
+			case "STR":
+				em.str(common.Unhex(fs[1]))
+			case "NUM":
+				em.num(common.Unhex(fs[1]))
+			case "FMT":
+				c, _ := new(big.Int).SetString(fs[2], 10)
+				e, _ := strconv.Atoi(fs[3])
+				em.fmtG(fs[1] == "1", c, int32(e))
+			case "ESC":
+				em.esc(common.Unhex(fs[1]))
+			}
+		}
 		return
 	}
-	var x any
-	dec := stdjson.NewDecoder(bytes.NewReader([]byte(d)))
-	dec.UseNumber()
-	dec.Decode(&x)
-	ob := string(b)
-	if len(ob) > 80 {
-		ob = ob[:80] + "..."
+
+	nDoc := common.Atoi(args["--ndoc"], 2000)
+	nMut := common.Atoi(args["--nmut"], 2000)
+	nVal := common.Atoi(args["--nval"], 1500)
+	nStr := common.Atoi(args["--nstr"], 2000)
+	nNum := common.Atoi(args["--nnum"], 2000)
+	nFmt := common.Atoi(args["--nfmt"], 1500)
+	nEsc := common.Atoi(args["--nesc"], 1500)
+	rng := common.NewRng(seed)
+
+	// 1. corpus + fixed documents (seed independent)
+	for _, d := range readCorpus(args["--corpus"]) {
+		em.dec([]byte(d[0]), d[1])
 	}
-	fmt.Printf("%q valid=%v kind=%v marshal=%q std=%.60q\n", lab, valid, v.Kind(), ob, fmt.Sprint(x))
+	fixed := fixedDocs()
+	for _, d := range fixed {
+		em.dec([]byte(d[0]), d[1])
+	}
+
+	// 2. grammar documents
+	var pool []string
+	for i := 0; i < nDoc; i++ {
+		r := rng.Fork()
+		g := &docGen{r: r, ws: r.Intn(3), maxExp: 5000, strSty: r.Intn(3), maxNode: 40 + r.Intn(80)}
+		class := "gen"
+		switch r.Intn(20) {
+		case 0:
+			g.dup = true
+			class = "gen-dup"
+		case 1:
+			g.bom = true
+			class = "gen-bom"
+		case 2:
+			g.lone = true
+			class = "gen-lone"
+		case 3:
+			g.maxExp = 99000
+			class = "gen-bigexp"
+		}
+		d := g.doc(1 + r.Intn(6))
+		if len(pool) < 4000 && class == "gen" {
+			pool = append(pool, d)
+		}
+		em.dec([]byte(d), class)
+	}
+
+	// 3. mutated documents (mostly invalid)
+	for i := 0; i < nMut && len(pool) > 0; i++ {
+		r := rng.Fork()
+		var d string
+		if r.Chance(1, 5) {
+			d = common.Pick(r, fixed)[0]
+		} else {
+			d = common.Pick(r, pool)
+		}
+		if len(d) > 300 {
+			continue
+		}
+		m := mutate(r, d)
+		if r.Chance(1, 4) {
+			m = mutate(r, m)
+		}
+		em.dec([]byte(m), "mut")
+	}
+
+	// 4. concrete values from the data generator
+	for i := 0; i < nVal; i++ {
+		r := rng.Fork()
+		g := &valGen{r: r}
+		e, truth := g.value(1 + r.Intn(5))
+		v := ctx.BuildExpr(e)
+		mb, err := v.MarshalJSON()
+		if err != nil {
+			out.Emit(fmt.Sprintf("ENC - value %s", truth), "walk=REJECT std=REJECT rt=REJECT blt=-")
+			continue
+		}
+		cl := "value"
+		if g.nfc > 0 {
+			cl = "value-nfc"
+		}
+		em.enc(mb, cl, truth, v)
+	}
+
+	// 5. string literals: JSON spellings and their neighbours
+	for i := 0; i < nStr; i++ {
+		r := rng.Fork()
+		s := genString(r, true)
+		t := spellString(r, s, r.Intn(3))
+		switch r.Intn(6) {
+		case 0:
+			t = mutate(r, t)
+		case 1:
+			t = t[:len(t)-1] + common.Pick(r, []string{`\a`, `\v`, `\x41`, `\U0001F600`, `\UFFFFFFFF`, `\U00110000`, `\(`, `\'`, `\0`, `\101`, "\\\n", "\\\r\n", `\u12`, `\ud800`, `\udc00`, `\ud800\u0041`, `\ud800\ud800`, "\r", "\t", "\x00", "\xff", `\`, `"`, `#`}) + `"`
+		}
+		em.str(t)
+	}
+
+	// 6. number texts
+	for i := 0; i < nNum; i++ {
+		r := rng.Fork()
+		t := genNumberText(r, 120000)
+		switch r.Intn(8) {
+		case 0:
+			t = mutate(r, t)
+		case 1:
+			t = common.Pick(r, []string{"0x1F", "0XaB", "0b101", "0o17", "1K", "1Ki", "5M", "1.5G", "1_000", "1__0", "1_", "_1", ".5", "1.", "1.e3", "01", "01.5", "0_1", "00", "0.", "0e", "1e", "1e+", "+1", "+.5", "-", "", "0K", "0.5K", "1e1K", "1E400", "0x", "0b2", "0o8", "1.5e", "1e99999999999", "1e2147483647", "1e2147483648", "1e-2147483648", "1e-2147483649", "1e100000", "1e100001", "9.99e99998", "10e100000", "0.1e-100000", "1\x00", "12a", "1e5x"})
+		}
+		em.num(t)
+	}
+
+	// 7. apd 'G' formatting
+	for i := 0; i < nFmt; i++ {
+		r := rng.Fork()
+		c := new(big.Int)
+		switch r.Intn(5) {
+		case 0:
+			c.SetInt64(0)
+		case 1:
+			c.SetInt64(int64(r.Intn(10)))
+		case 2:
+			c.SetInt64(int64(r.Intn(1000000)))
+		default:
+			c.SetString("1"+digits(r, r.Intn(40)), 10)
+		}
+		var e int
+		switch r.Intn(5) {
+		case 0:
+			e = 0
+		case 1:
+			e = -r.Intn(12)
+		case 2:
+			e = r.Intn(12)
+		case 3:
+			e = -r.Intn(60)
+		default:
+			e = r.Intn(6000) - 3000
+		}
+		em.fmtG(r.Chance(1, 3), c, int32(e))
+	}
+
+	// 8. string escaping of arbitrary Go strings (incl. invalid UTF-8)
+	for i := 0; i < nEsc; i++ {
+		r := rng.Fork()
+		s := genString(r, true)
+		if r.Chance(1, 3) {
+			b := []byte(s)
+			for k := 0; k < 1+r.Intn(3); k++ {
+				ins := common.Pick(r, []string{"\xff", "\xc0", "\x80", "\xed\xa0\x80", "\xf4\x90\x80\x80", "\xe2\x82", "\xf0\x9f", "\xc0\x80", "\xfe"})
+				p := r.Intn(len(b) + 1)
+				b = append(b[:p:p], append([]byte(ins), b[p:]...)...)
+			}
+			s = string(b)
+		}
+		em.esc(s)
+	}
 }
